@@ -13,6 +13,7 @@
   same times.
 -/
 import Ctrmml.Proofs.Seek
+import Ctrmml.Proofs.SeekAlive
 namespace Ctrmml.C12
 open Ctrmml Player PlayerCh
 
@@ -71,5 +72,119 @@ theorem C12_skip_stopped (song : Song) (root : List Event) (pd : Int → Bool) (
 for a seek landing inside a note; checked by evaluation in the driver-based correspondence
 (`seek` stream) rather than by kernel reduction, because `settle` carries a large step budget. -/
 example : initPS.acc.enabled = true ∧ initPS.err = none := ⟨rfl, rfl⟩
+
+
+/-! ## Round 2: one hypothesis at the last tick; past the end of the track; a real instance -/
+
+/-- **`alive` is downward closed along play ticks**: alive after `k+1` ticks implies alive after
+`k` ticks (an error is sticky; a stopped player stays stopped). -/
+theorem alive_antitone (song : Song) (root : List Event) (pd : Int → Bool) (k : Nat) (s : PS)
+    (h : alive (iter (playTick song root pd) (k + 1) s)) : alive (iter (playTick song root pd) k s) := by
+  have hpt : playTick song root pd = playTickS song root pd := funext (playTick_eq song root pd)
+  rw [hpt] at h ⊢
+  exact alive_antitoneS song root pd k s h
+
+/-- **Seeking = playing, single hypothesis**: the track is alive after `n` single ticks (the
+last tick before the one the seek lands on). -/
+theorem C12_seek_eq_play_of_alive_last (song : Song) (root : List Event) (pd : Int → Bool) (n : Nat)
+    (hn : n ≥ 1) (halive : alive (iter (playTick song root pd) n initPS)) :
+    skipTicks song root pd n initPS = iter (playTick song root pd) (n + 1) initPS := by
+  apply C12_seek_eq_play song root pd n hn
+  intro k hk
+  have hpt : playTick song root pd = playTickS song root pd := funext (playTick_eq song root pd)
+  rw [hpt] at halive ⊢
+  exact alive_of_leS song root pd n initPS halive (k + 1) (by omega)
+
+/-- the same future from the single hypothesis -/
+theorem C12_same_future_of_alive_last (song : Song) (root : List Event) (pd : Int → Bool) (n : Nat)
+    (hn : n ≥ 1) (halive : alive (iter (playTick song root pd) n initPS)) (m : Nat) :
+    playTickO song root pd (iter (playTick song root pd) m (skipTicks song root pd n initPS))
+      = playTickO song root pd (iter (playTick song root pd) m (iter (playTick song root pd) (n + 1) initPS)) := by
+  rw [C12_seek_eq_play_of_alive_last song root pd n hn halive]
+
+/-- **Seeking = playing without the `enabled` hypothesis**: if no error has occurred after `n`
+single ticks, then `skip_ticks(n)` and `n+1` `play_tick()`s agree on `obs`: the whole state
+while the track is enabled; once the track has ended, everything except the three time
+counters (`play_time`, `on_time`, `off_time`). -/
+theorem C12_seek_eq_play_noerr (song : Song) (root : List Event) (pd : Int → Bool) (n : Nat) (hn : n ≥ 1)
+    (hnoerr : (iter (playTick song root pd) n initPS).err = none) :
+    obs (skipTicks song root pd n initPS) = obs (iter (playTick song root pd) (n + 1) initPS) := by
+  have hpt : playTick song root pd = playTickS song root pd := funext (playTick_eq song root pd)
+  rw [hpt] at hnoerr ⊢
+  have h1 : playTickS song root pd initPS = settle song root pd initPS := by
+    unfold playTickS; simp [initPS]
+  have hskip : skipTicks song root pd n initPS
+      = skipLoopS song root pd (n + 1) n (settle song root pd initPS) := by
+    unfold skipTicks skipTicksO
+    have e1 : initPS.err.isSome = false := rfl
+    have e2 : ¬ (initPS.acc.enabled = false) := by simp [initPS]
+    have e3 : (true = false) = False := by simp
+    simp only [e1, Bool.false_eq_true, if_false, e2, e3]
+    rw [skipLoopO_state]
+    have hn0 : ¬ (n = 0 ∨ initPS.acc.enabled = false) := by simp [initPS]; omega
+    have o1 : ¬ (initPS.acc.onTime > 0) := by simp [initPS]
+    have o2 : ¬ (initPS.acc.offTime > 0) := by simp [initPS]
+    show skipLoopS song root pd (n + 1 + 1) n initPS = _
+    rw [skipLoopS]
+    simp only [e1, Bool.false_eq_true, if_false, hn0, o1, o2]
+  rw [hskip]
+  show _ = obs (iter (playTickS song root pd) n (playTickS song root pd initPS))
+  rw [h1]
+  apply skip_obs_play song root pd (n + 1) n _ (by omega) (settle_settled song root pd _)
+  intro k hk
+  have := err_of_leS song root pd n initPS hnoerr (k + 1) (by omega)
+  simpa [iter, h1] using this
+
+/-- while the track is still enabled after the seek, `obs` hides nothing -/
+theorem C12_obs_enabled (s : PS) (h : s.acc.enabled = true) : obs s = s := obs_of_enabled h
+
+/-! ### Past the end the two paths do differ in `play_time` (outside the property: `n` is
+limited to the track length).  Track `c1` (one tick long), seek 3. -/
+def pdAll : Int → Bool := fun _ => true
+def shortRoot : List Event := [{ type := Tables.ev_NOTE, param := 1, on := 1, off := 0 }]
+
+theorem C12_past_end_playTime_differs :
+    (skipTicks ⟨[]⟩ shortRoot pdAll 3 initPS).acc.playTime = 3 ∧
+    (iter (playTick ⟨[]⟩ shortRoot pdAll) 4 initPS).acc.playTime = 1 ∧
+    skipTicks ⟨[]⟩ shortRoot pdAll 3 initPS ≠ iter (playTick ⟨[]⟩ shortRoot pdAll) 4 initPS := by
+  decide +kernel
+
+/-! ### Non-vacuity: a loop with a break, a call, relative commands; the seek lands inside the
+on-time of the first note of the called track.
+`[ c:2:1 | k+2 d:1:0 ]2  call 100  e:3:1`,  track 100: `a:2:1 v+1`;  loop passes end at ticks 4
+and 7, track 100 plays 7..10, the seek distance 8 lands inside its note. -/
+def exRoot : List Event :=
+  [ { type := Tables.ev_LOOP_START, param := 0, on := 0, off := 0 },
+    { type := Tables.ev_NOTE, param := 1, on := 2, off := 1 },
+    { type := Tables.ev_LOOP_BREAK, param := 0, on := 0, off := 0 },
+    { type := Tables.ev_TRANSPOSE_REL, param := 2, on := 0, off := 0 },
+    { type := Tables.ev_NOTE, param := 2, on := 1, off := 0 },
+    { type := Tables.ev_LOOP_END, param := 2, on := 0, off := 0 },
+    { type := Tables.ev_JUMP, param := 100, on := 0, off := 0 },
+    { type := Tables.ev_NOTE, param := 5, on := 3, off := 1 } ]
+def exSong : Song := ⟨[(100, [ { type := Tables.ev_NOTE, param := 9, on := 2, off := 1 },
+                              { type := Tables.ev_VOL_REL, param := 1, on := 0, off := 0 } ])]⟩
+
+/-- the hypothesis of `C12_seek_eq_play_of_alive_last` holds on the example, by kernel evaluation -/
+theorem C12_example_alive : alive (iter (playTick exSong exRoot pdAll) 8 initPS) := by
+  unfold alive
+  decide +kernel
+
+/-- and the landing point is inside the on-time of the note of the called track, inside the call,
+after the loop has been left through the break with the transpose applied once -/
+theorem C12_example_lands_inside :
+    let s := iter (playTick exSong exRoot pdAll) 9 initPS
+    s.acc.onTime = 1 ∧ s.acc.playTime = 8 ∧ s.core.track = .id 100 ∧ s.core.stack.length = 1 ∧
+    getCh s.ch Tables.ev_TRANSPOSE = 2 ∧ s.ch.lastNote = 9 := by
+  decide +kernel
+
+example : skipTicks exSong exRoot pdAll 8 initPS = iter (playTick exSong exRoot pdAll) 9 initPS :=
+  C12_seek_eq_play_of_alive_last exSong exRoot pdAll 8 (by decide) C12_example_alive
+
+example : (iter (playTick exSong exRoot pdAll) 8 initPS).err = none := C12_example_alive.2
+
+/-- non-vacuity of `C12_seek_eq_play_noerr` past the end: the short track, seek 3 -/
+example : obs (skipTicks ⟨[]⟩ shortRoot pdAll 3 initPS) = obs (iter (playTick ⟨[]⟩ shortRoot pdAll) 4 initPS) :=
+  C12_seek_eq_play_noerr ⟨[]⟩ shortRoot pdAll 3 (by decide) (by decide +kernel)
 
 end Ctrmml.C12
